@@ -602,6 +602,19 @@ func (s *sim) jobDone(ns, name string, ok bool) bool {
 	return s.c.Status().Update(context.TODO(), j) == nil
 }
 
+// jobGone: the run object of a completed Trial disappears without the controller (TTL after finish, user clean-up)
+func (s *sim) jobGone(ns, name string) bool {
+	tt := &trialsv1beta1.Trial{}
+	if s.c.Get(context.TODO(), types.NamespacedName{Namespace: ns, Name: name}, tt) != nil || !tt.IsCompleted() {
+		return false
+	}
+	j := &batchv1.Job{}
+	if err := s.c.Get(context.TODO(), types.NamespacedName{Namespace: ns, Name: name}, j); err != nil {
+		return false
+	}
+	return s.c.Delete(context.TODO(), j) == nil
+}
+
 func (s *sim) metric(trial, val string) {
 	s.db.logs[trial] = append(s.db.logs[trial], dbEntry{val, time.Unix(int64(1700000000+s.opIndex), 0).UTC().Format(time.RFC3339)})
 }
@@ -673,7 +686,12 @@ func (s *sim) dump() string {
 		st := e.Status
 		opt := "-"
 		if st.CurrentOptimalTrial.BestTrialName != "" {
-			opt = st.CurrentOptimalTrial.BestTrialName
+			// the optimal trial's name and the observation stored with it
+			ms := []string{}
+			for _, m := range st.CurrentOptimalTrial.Observation.Metrics {
+				ms = append(ms, fmt.Sprintf("%s:%s:%s:%s", hx(m.Name), hx(m.Min), hx(m.Max), hx(m.Latest)))
+			}
+			opt = st.CurrentOptimalTrial.BestTrialName + "@" + strings.Join(ms, ",")
 		}
 		out = append(out, fmt.Sprintf("E %s %s %s %s %d %s %s %s %s %d/%d/%d/%d/%d/%d/%d/%d %s", e.Namespace, e.Name,
 			b01(!e.DeletionTimestamp.IsZero()), b01(hasFin(e.Finalizers, "update-prometheus-metrics")),
